@@ -129,16 +129,18 @@ def parse_text_line(rng, d, s, style=None, arg=None):
         ztxt = ("+" if sign > 0 else "-") + "%02d" % zh + (":" if zcolon else "") + "%02d" % zm
     else:
         ztxt = zlit
+    nowd = 1 if style == "rfc822" and rng.random() < 0.3 else 0          # the week day is optional in RFC 822
     if style == "rfc822":
         t = "%s, %02d %s %04d %02d:%02d:%02d %s" % (DAYN[(ld + 4) % 7], D, MONN[M - 1], Y, hh, mm, ss, ztxt)
+        t = t[5:] if nowd else t
     elif style == "iso":
         t = "%04d-%02d-%02dT%02d:%02d:%02d%s%s" % (Y, M, D, hh, mm, ss, (chr(fsep) + frac) if fsep else "", ztxt)
     else:
         t = "%04d%02d%02dT%02d%02d%02d%s%s" % (Y, M, D, hh, mm, ss, (chr(fsep) + frac) if fsep else "", ztxt)
     if arg is None:
         arg = rng.choice([style, "auto", "auto"] + (["iso", "isobasic"] if style != "rfc822" else []))
-    return "PARSE %s %s %s 0 %d %d %d %d %d %d %d %s %s %d %d %d %d" % (
-        arg, t.encode().hex(), style, Y, M, D, hh, mm, ss, fsep, hx(frac.encode()), hx(zlit.encode()), sign, zh, zm, zcolon)
+    return "PARSE %s %s %s 0 %d %d %d %d %d %d %d %s %s %d %d %d %d %d" % (
+        arg, t.encode().hex(), style, Y, M, D, hh, mm, ss, fsep, hx(frac.encode()), hx(zlit.encode()), sign, zh, zm, zcolon, nowd)
 
 
 def bfs_picks(ctx):
@@ -163,7 +165,7 @@ def run(ctx):
                 "init_from_str whose result, output text and all accessor / epoch views TLC compared with DateTime.tla; distinct "
                 "= distinct (script line, instant it applies to); non-trivial = all")
     ctx.assumptions += [
-        "harness child runs with TZ=UTC (checked in every Reset event); local-time accessors and mktime are not judged",
+        "harness children run with TZ=UTC and, for a third of the executions, three other zones (logged in every Reset event); local-time accessors and mktime are not judged",
         "64-bit values are projected by the adapter with fixed mixed-radix splits (seconds -> day + second of day, millis -> day + "
         "ms of day, nanos -> day + second + ns); trusted",
         "as_nanos is compared only for instants up to day 213502 (2554-07-20): later ones do not fit 64 bits and the header says "
@@ -237,6 +239,33 @@ def run(ctx):
 
     pipeline.drive_and_validate(ctx, exe, execs, SPEC_DIR, "DateTimeTrace", "Trace.cfg", label="dt", nbatch=16,
                                 env={"TZ": "UTC"}, tlc_env={"VERIF_DEV_" + d: "1" for d in devs}, on_fired=on_fired)
+    # the UTC views, formatters and the parser must not depend on the zone the process runs in: every third execution
+    # again under zones west and east of Greenwich, with half-hour offsets and with daylight-saving rules
+    zones = ["EST5EDT,M3.2.0,M11.1.0", "IST-5:30", "NZST-12NZDT,M9.5.0,M4.1.0/3", "<-11>11"]
+    for zi, tz in enumerate(zones if thorough else zones[:3]):
+        sub = execs[zi::(3 if not thorough else 2) * len(zones)] + caps[:2]
+        pipeline.drive_and_validate(ctx, exe, sub, SPEC_DIR, "DateTimeTrace", "Trace.cfg", label="dt_tz%d" % zi, nbatch=8,
+                                    env={"TZ": tz}, tlc_env={"VERIF_DEV_" + d: "1" for d in devs}, on_fired=on_fired)
+    # several threads at once, each on date-time objects of its own (a stateless API): controlled schedules validated by
+    # DateTimeVsTrace.tla, and a data-race scan on the ThreadSanitizer build (shared hidden state shows as a race)
+    exe_vs = build.build_harness("datetime_scenario", ["datetime_scenario.c"], cflags=["-Wno-unused-function"], wrap=True)
+    blocks = []
+    for _ in range(120 if not thorough else 3000):
+        sc = []
+        for k in range(1, rng.randint(2, 3) + 1):
+            ops = []
+            for _o in range(rng.randint(2, 10)):
+                d, s2 = rng.choice(inst) if rng.random() < 0.4 else (rng.randint(0, MAXDAY), rng.randint(0, 86399))
+                f = rng.choice("rib")
+                sh = rng.randint(0, 1) if f != "r" else 0
+                pf = rng.choice([f, "a"] if f == "r" else [f, "a", "i" if f == "b" else "b"])
+                ops.append("%d:%d:%s:%d:%s" % (d, s2, f, sh, pf))
+            sc.append("THREAD %d %s" % (k, " ".join(ops)))
+        blocks.append((rng.choice(["rand %d", "pct %d 2 60", "pct %d 3 100"]) % rng.randrange(1, 10 ** 6), sc))
+    nvs, _acc = pipeline.drive_vsched(ctx, exe_vs, blocks, SPEC_DIR, "DateTimeVsTrace", "VsTrace.cfg", label="dtvs")
+    pipeline.race_scan(ctx, "datetime_scenario", "datetime_scenario.c", blocks[: (100 if not thorough else 1500)])
+    ctx.extra["threaded_executions"] = nvs
+    ctx.extra["time_zones"] = ["UTC"] + (zones if thorough else zones[:3])
     for nm in sorted(fired):
         rec = devs.get(nm, {})
         ctx.known_finding(rec.get("id", nm), "id=%s %s" % (rec.get("id", nm), rec.get("what", DEV_TEXT[nm])))
